@@ -163,8 +163,9 @@ class Check:
     def finish(self):
         # An obligation refuted by the solver whose counter-models did not replay is still a violation
         # (brief), reported with the verifier's output and `no-failing-input-found` -- unless the bounded
-        # layer of this very run produced a failing input, which is then the reported witness.
-        if self.pending_refuted and not self.violation_lines and not self.known_hit:
+        # layer of this very run produced a failing input, which is then the reported witness.  (A listed known finding hit
+        # elsewhere in the run is unrelated and must not swallow it.)
+        if self.pending_refuted and not self.violation_lines:
             for (clause, inputs, detail, replay, vo) in self.pending_refuted[:10]:
                 self.violation(clause, inputs, detail, replay=replay, found_input=False, verifier_output=vo)
         elif self.pending_refuted:
